@@ -264,6 +264,14 @@ def step (d : DSt) (w : List String) : DSt × String :=
     let (s', res) := restart (codecs d) d.cfg d.st
     let d' := { d with st := s' }
     (d', showState d' d.st (showRes res))
+  | ["sctx"] =>
+    -- Executer.createSyncContext: the finalized block header the synchronisers get
+    match d.st.cache with
+    | [] => (d, "unsupported")
+    | _ :: _ =>
+      match syncFinalized (codecs d) d.st with
+      | some h => (d, "ok sfin=" ++ toString h.height ++ " sfz=" ++ short h.id)
+      | none => (d, "err")
   | ["twin"] => (d, "ok")
   | ["cleartemp"] =>
     let d' := { d with st := clearTemp d.st }
